@@ -2,7 +2,12 @@
 
 package unifier
 
-import "time"
+import (
+	"reflect"
+	"sync"
+	"time"
+	"unsafe"
+)
 
 // VerifRewind simulates "d passes" for the unification breaker: the stored time of
 // the last failure moves d into the past (0 = "never failed" is left alone).
@@ -19,3 +24,85 @@ func (cb *CircuitBreaker) VerifLastFailure() int64 { return cb.lastFailureTime.L
 func VerifLifecycleBreaker(u *LifecycleUnifier, endpointURL string) *CircuitBreaker {
 	return u.endpointManager.GetCircuitBreaker(endpointURL)
 }
+
+// ---- round 7: one long-lived manager / unifier taken through histories (c08 kind "manager")
+
+// verifCollectBreakers finds every *CircuitBreaker a struct holds in a map or a sync.Map, whatever the fields are
+// called (looked up by type, so that a rename, or a second container next to the authoritative one, neither breaks
+// the build nor escapes simulated time).
+func verifCollectBreakers(ptr any) (out []*CircuitBreaker, containers int) {
+	v := reflect.ValueOf(ptr)
+	if v.Kind() != reflect.Ptr || v.IsNil() || v.Elem().Kind() != reflect.Struct {
+		return nil, 0
+	}
+	v = v.Elem()
+	seen := map[*CircuitBreaker]bool{}
+	add := func(cb *CircuitBreaker) {
+		if cb != nil && !seen[cb] {
+			seen[cb] = true
+			out = append(out, cb)
+		}
+	}
+	cbType := reflect.TypeOf((*CircuitBreaker)(nil))
+	syncMapType := reflect.TypeOf(sync.Map{})
+	for i := 0; i < v.NumField(); i++ {
+		f := v.Field(i)
+		if !f.CanAddr() {
+			continue
+		}
+		f = reflect.NewAt(f.Type(), unsafe.Pointer(f.UnsafeAddr())).Elem()
+		switch {
+		case f.Kind() == reflect.Map && f.Type().Elem() == cbType:
+			containers++
+			for it := f.MapRange(); it.Next(); {
+				if cb, ok := it.Value().Interface().(*CircuitBreaker); ok {
+					add(cb)
+				}
+			}
+		case f.Type() == syncMapType:
+			sm := f.Addr().Interface().(*sync.Map)
+			found := false
+			sm.Range(func(_, val any) bool {
+				if cb, ok := val.(*CircuitBreaker); ok {
+					found = true
+					add(cb)
+				}
+				return true
+			})
+			if found {
+				containers++
+			}
+		}
+	}
+	return out, containers
+}
+
+// VerifManagerRewind simulates "d passes" for every breaker the manager holds; ok=false when the manager has no
+// container of breakers this accessor recognises (the harness then reports the case as not judged).
+// Not for concurrent use with the manager's own methods (the harness drives histories from one goroutine).
+func VerifManagerRewind(m *EndpointManager, d time.Duration) (n int, ok bool) {
+	cbs, containers := verifCollectBreakers(m)
+	for _, cb := range cbs {
+		cb.VerifRewind(d)
+	}
+	return len(cbs), containers > 0
+}
+
+// VerifLifecycleManager returns the endpoint manager a LifecycleUnifier currently uses (Clear installs a new one);
+// the field is looked up by its type.
+func VerifLifecycleManager(u *LifecycleUnifier) *EndpointManager {
+	v := reflect.ValueOf(u).Elem()
+	want := reflect.TypeOf((*EndpointManager)(nil))
+	for i := 0; i < v.NumField(); i++ {
+		f := v.Field(i)
+		if f.Type() == want {
+			f = reflect.NewAt(f.Type(), unsafe.Pointer(f.UnsafeAddr())).Elem()
+			m, _ := f.Interface().(*EndpointManager)
+			return m
+		}
+	}
+	return nil
+}
+
+// VerifSweep runs one pass of the background clean-up, exactly what cleanupRoutine does every CleanupInterval.
+func VerifSweep(u *LifecycleUnifier) { u.performCleanup() }
